@@ -268,6 +268,42 @@ func c17Extra() []c17inst {
 			return o
 		}, dts: num})
 	}
+	// ---- accumulation: a sum is the left fold IN the element type. Values whose partial sums round in that type (2^24 + 1
+	// in float32, 2^53 + 1 in float64): one instance per float type, because the expected number depends on the type
+	for _, d := range fl {
+		d := d
+		big := float64(uint64(1) << 53)
+		if d.Name == "float32" {
+			big = float64(1 << 24)
+		}
+		seq := []float64{big, 1, 1, -3, 1, 1}
+		fold := func(idx []int) float64 {
+			var acc interface{} = ref.FromFloat(d, seq[idx[0]])
+			for _, i := range idx[1:] {
+				acc = ref.Arith("Add", acc, ref.FromFloat(d, seq[i])).V
+			}
+			f, _ := toF(acc)
+			return f
+		}
+		mkT := func(shape []int) *tensor.Dense {
+			v := make([]interface{}, len(seq))
+			for i, f := range seq {
+				v[i] = ref.FromFloat(d, f)
+			}
+			return mkContig(d, shape, v)
+		}
+		out = append(out,
+			c17inst{family: "reduce", op: "Sum(rounding)", variant: d.Name + "-all", run: func(dd ref.DT) ([]interface{}, bool, string) {
+				return resOf(tensor.Sum(mkT([]int{6})))
+			}, generic: func() []float64 { return []float64{fold([]int{0, 1, 2, 3, 4, 5})} }, dts: []ref.DT{d}},
+			c17inst{family: "reduce", op: "Sum(rounding)", variant: d.Name + "-last", run: func(dd ref.DT) ([]interface{}, bool, string) {
+				return resOf(tensor.Sum(mkT([]int{2, 3}), 1))
+			}, generic: func() []float64 { return []float64{fold([]int{0, 1, 2}), fold([]int{3, 4, 5})} }, dts: []ref.DT{d}},
+			c17inst{family: "reduce", op: "Sum(rounding)", variant: d.Name + "-first", run: func(dd ref.DT) ([]interface{}, bool, string) {
+				return resOf(tensor.Sum(mkT([]int{3, 2}), 0))
+			}, generic: func() []float64 { return []float64{fold([]int{0, 2, 4}), fold([]int{1, 3, 5})} }, dts: []ref.DT{d}},
+		)
+	}
 	// ---- MaskFromSlice: one loop per slice element type (non-zero elements are masked)
 	mks := []int{0, 1, 0, 2, 0, 3}
 	out = append(out, c17inst{family: "maskpred", op: "MaskFromSlice", variant: "(6)", run: func(d ref.DT) ([]interface{}, bool, string) {
